@@ -345,6 +345,12 @@ def main(tier, rep):
                     g = {"sop": "set" if rep_i else "set_many", "fop": fop, "v": vc, "serde": ["none", "custom", "compressed"][rep_i],
                          "k": "bytes", "coll": "list"}
                     safe_point(rep, traces, g, len(traces) * 3, rnd, force_seg=seg)
+    # values of 64 KiB and more whose end falls on a piece boundary
+    for fop in ("get", "gets", "get_many", "gats"):
+        for vc in ("n65536", "n65537", "n69632", "n131072"):
+            for seg in ("all", 4096, "aftercr", "beforelf"):
+                g = {"sop": "set", "fop": fop, "v": vc, "serde": "none", "k": "bytes", "coll": "list"}
+                safe_point(rep, traces, g, len(traces) * 3, rnd, force_seg=seg)
     acc, rej, st, _ = tlc.validate_traces("RoundTripTrace", [{"h": t["h"], "ev": t["ev"]} for t in traces], chunk=2000)
     rep.set("traces_validated_against_impl", len(traces))
     rep.set("trace_states", st)
